@@ -243,7 +243,7 @@ func c13Run(c *mon.Ctx, csAny any) {
 		if t == nil {
 			c.Eval(1)
 
-			if s.Equal(nil) != 0 {
+			if s.Equal(nil) != 0 || s.Equal(mon.NilScal) != 0 {
 				c.Fail("Equal(nil) != 0", "equal-nil", nil)
 			}
 
